@@ -124,6 +124,12 @@ def _code_objects(code, path="<module>"):
             yield from _code_objects(const, f"{path}/{k}")
 
 
+def _only_builtin_references(a, b, global_stored):
+    """`@classmethod` -> `@staticmethod`: two references to builtins that the program never binds are not bindings that were merged (the rule changed which builtin is
+    used; whether that is right is a question for the execution oracle)."""
+    return hasattr(builtins, a) and hasattr(builtins, b) and a not in global_stored and b not in global_stored
+
+
 def alpha_check(before, after):
     """None if `after` is not a pure renaming of `before` (different instruction streams); else a list of problems (empty = alpha-equivalent)."""
     try:
@@ -136,6 +142,9 @@ def alpha_check(before, after):
     problems = []
     global_map = {}
     maps = {}
+    global_stored = set()
+    # `_` is the conventional throwaway: several write-only bindings may share it. It only counts as a collision when some code reads `_`.
+    underscore_read = any(i.opname.startswith("LOAD_") and i.argval == "_" for _, x in objs_a for i in dis.get_instructions(x))
     for (path, xb), (_, xa) in zip(objs_b, objs_a):
         ib = [i for i in dis.get_instructions(xb) if i.opname not in ("RESUME", "CACHE")]
         ia = [i for i in dis.get_instructions(xa) if i.opname not in ("RESUME", "CACHE")]
@@ -172,6 +181,8 @@ def alpha_check(before, after):
             o, n = str(p.argval), str(q.argval)
             if op.startswith(("STORE_", "DELETE_")):
                 stored.add((ns, o))
+                if ns == "global":
+                    global_stored.add(o)
             m = local_ns.setdefault(ns, {})
             if o in m and m[o] != n:
                 problems.append({"problem": "one_binding_split_into_two_names", "where": path, "namespace": ns, "old": o, "new": sorted({m[o], n})})
@@ -183,7 +194,7 @@ def alpha_check(before, after):
         for ns, m in local_ns.items():
             inv = {}
             for o, n in m.items():
-                if n in inv and inv[n] != o:
+                if n in inv and inv[n] != o and not (n == "_" and not underscore_read) and not (ns == "global" and _only_builtin_references(inv[n], o, global_stored)):
                     problems.append({"problem": "two_bindings_merged_into_one_name", "where": path, "namespace": ns, "old": sorted({inv[n], o}), "new": n})
                 inv[n] = o
                 if o != n and ns != "attr" and n in RESERVED and (ns, o) in stored:  # a *binding* got a reserved name (not a reference to another builtin)
@@ -191,7 +202,7 @@ def alpha_check(before, after):
         maps[path] = local_ns
     inv = {}
     for o, n in global_map.items():
-        if n in inv and inv[n] != o:
+        if n in inv and inv[n] != o and not (n == "_" and not underscore_read) and not _only_builtin_references(inv[n], o, global_stored):
             problems.append({"problem": "two_bindings_merged_into_one_name", "where": "<globals>", "old": sorted({inv[n], o}), "new": n})
         inv[n] = o
     # closures: a free variable of a nested code object is the cell variable of an enclosing one
